@@ -393,4 +393,37 @@ def Prov.run (p : Prov) : List Op → Prov × List (Obs × Evs)
 /-- the state after a sequence of calls -/
 def Prov.after (p : Prov) (ops : List Op) : Prov := (p.run ops).1
 
+/-! ## the atomic latch under concurrent callers
+
+`SimpleSpanProcessor::Shutdown` (`shutdown_latch_.test_and_set`), `SimpleLogRecordProcessor::Shutdown`
+(`is_shutdown_.exchange(true)`) and `MeterContext::Shutdown` (`shutdown_latch_.test_and_set`) have the same shape: one atomic
+read-and-set, then — only for the caller that read `false` — the forwarded `Shutdown`, then return; no mutex.  Any number
+of callers, any interleaving (a schedule is a list of caller numbers). -/
+namespace Latch
+
+inductive PC
+  | start
+  | won                      -- read `false`: about to forward
+  | ret (forwarded : Bool)   -- returned (true in the code; the flag says whether this caller forwarded)
+  deriving DecidableEq, Repr
+
+structure St where
+  latch : Bool
+  pc : Nat → PC
+  /-- how often the exporter's (the readers') Shutdown has been invoked -/
+  forwarded : Nat
+
+def upd (f : Nat → PC) (i : Nat) (v : PC) : Nat → PC := fun j => if j = i then v else f j
+
+def step (s : St) (i : Nat) : St :=
+  match s.pc i with
+  | .start => if s.latch then { s with pc := upd s.pc i (.ret false) } else { s with latch := true, pc := upd s.pc i .won }
+  | .won => { s with forwarded := s.forwarded + 1, pc := upd s.pc i (.ret true) }
+  | .ret _ => s
+
+def init : St := ⟨false, fun _ => .start, 0⟩
+def run (sched : List Nat) : St := sched.foldl step init
+
+end Latch
+
 end Otel.Fanout
